@@ -156,7 +156,10 @@ class Run:
         patch = {"exclude_prompts_in_repositories": []}
         if self.storage != "default":
             patch["prompt_storage"] = self.storage
+        self.mode = cfg.get("mode", "wrapper")          # "wrapper" | "hooks"
+        self.cwd_mode = cfg.get("cwd", "root")          # "root" | "sub" | "dashC"
         self.env = dict(os.environ)
+        self.env.update(cfg.get("env", {}))
         self.env.update({
             "HOME": self.home,
             "GIT_CONFIG_NOSYSTEM": "1",
@@ -169,6 +172,12 @@ class Run:
         })
         for k in ("GIT_DIR", "GIT_WORK_TREE", "GIT_INDEX_FILE"):
             self.env.pop(k, None)
+        if self.mode == "hooks":
+            self.env["GIT_CONFIG_GLOBAL"] = os.path.join(self.home, ".gitconfig")
+            self.env["GIT_AI_GLOBAL_GIT_HOOKS"] = "true"
+            os.makedirs(os.path.join(self.home, ".git-ai"), exist_ok=True)
+            with open(os.path.join(self.home, ".git-ai", "config.json"), "w") as fh:
+                json.dump(patch, fh)
         self.log = []      # (argv, rc, stderr-tail) of wrapped commands
         self.panics = 0
         self.last_ckpt = None
@@ -179,13 +188,31 @@ class Run:
         self.plain(["config", "core.autocrlf", "false"])
         self.plain(["config", "commit.gpgsign", "false"])
         for k, v in cfg.get("gitconfig", {}).items():
-            self.plain(["config", k, v])
+            self.plain(["config", k, v.replace("@DIR@", self.dir)])
+        if cfg.get("attributes"):
+            os.makedirs(os.path.join(self.repo, ".git", "info"), exist_ok=True)
+            with open(os.path.join(self.repo, ".git", "info", "attributes"), "w") as fh:
+                fh.write(cfg["attributes"])
+        for name, body in cfg.get("scripts", {}).items():
+            sp = os.path.join(self.dir, name)
+            with open(sp, "w") as fh:
+                fh.write(body)
+            os.chmod(sp, 0o755)
+        os.makedirs(os.path.join(self.repo, "subd"), exist_ok=True)
+        if self.mode == "hooks":
+            p = subprocess.run([self.gitai, "git-hooks", "ensure"], cwd=self.repo, env=self.env,
+                               stdout=subprocess.PIPE, stderr=subprocess.PIPE)
+            if p.returncode != 0:
+                raise RuntimeError("git-hooks ensure failed: %s" % p.stderr.decode(errors="replace")[-300:])
         if cfg.get("InitKind", "base") == "base":
+            # the base commit is made the same way as every other commit (through the wrapper / with the hooks)
             f0 = cfg.get("F0", self.files[0])
             self.write(f0, [[u, 0] for u in range(1, cfg.get("BaseLines", 2) + 1)])
-            self.plain(["add", "-A"])
-            self.plain(["commit", "-q", "-m", "base"], dated=True)
+            self.wrapped(["add", "-A"], cwd=self.repo)
+            self.wrapped(["commit", "-q", "-m", "base"], cwd=self.repo)
             self._register_new_commits("init")
+            self.log = []
+
 
     # ------------------------------------------------------------------ processes
     def _dates(self):
@@ -205,11 +232,23 @@ class Run:
         return p
 
     def wrapped(self, args, cwd=None):
-        """git through the git-ai proxy"""
+        """git through the git-ai proxy (wrapper mode) or plain git with the managed hooks (hooks mode)"""
         env = dict(self.env)
-        env["GIT_AI"] = "git"
         env.update(self._dates())
-        p = subprocess.run([self.gitai] + args, cwd=cwd or self.repo, env=env,
+        if self.mode == "hooks":
+            exe = "git"
+        else:
+            exe = self.gitai
+            env["GIT_AI"] = "git"
+        if cwd is None:
+            if self.cwd_mode == "sub":
+                cwd = os.path.join(self.repo, "subd")
+            elif self.cwd_mode == "dashC":
+                cwd = self.dir
+                args = ["-C", self.repo] + args
+            else:
+                cwd = self.repo
+        p = subprocess.run([exe] + args, cwd=cwd, env=env,
                            stdout=subprocess.PIPE, stderr=subprocess.PIPE)
         err = p.stderr.decode(errors="replace")
         if "panicked at" in err:
@@ -227,6 +266,11 @@ class Run:
         return p
 
     # ------------------------------------------------------------------ files
+    def parg(self, f):
+        """path argument for a wrapped git command, relative to the directory the command starts in"""
+        p = self.world.path(f)
+        return "../" + p if self.cwd_mode == "sub" else p
+
     def abspath(self, f):
         return os.path.join(self.repo, self.world.path(f))
 
@@ -533,9 +577,9 @@ class Run:
         path = self.world.path(f)
         if act.get("kind") == "file":
             if os.path.isfile(self.abspath(f)):
-                self.wrapped(["add", "--", path])
+                self.wrapped(["add", "--", self.parg(f)])
             else:
-                self.wrapped(["rm", "-q", "--cached", "--", path])
+                self.wrapped(["rm", "-q", "--cached", "--", self.parg(f)])
             return
         data = self.world.render(act["c"])
         if data is None:
@@ -552,12 +596,12 @@ class Run:
         elif mode == "staged":
             self.wrapped(["commit", "-q", "-m", "c"])
         else:
-            paths = [self.world.path(f) for f in sorted(act["files"])]
+            paths = [self.parg(f) for f in sorted(act["files"])]
             # untracked files cannot be named by `commit -- path`; add them with intent first is not what the
             # model does, so stage new files explicitly (equivalent content-wise for those files)
             for f in sorted(act["files"]):
                 if self.cat(":" + self.world.path(f)) is None and os.path.isfile(self.abspath(f)):
-                    self.wrapped(["add", "--", self.world.path(f)])
+                    self.wrapped(["add", "--", self.parg(f)])
             self.wrapped(["commit", "-q", "-m", "c", "--"] + paths)
         self._register_new_commits("commit")
 
@@ -629,7 +673,7 @@ class Run:
         self.wrapped(["reset", "-q", "--" + act["mode"], self.c2sha[act["target"]]])
 
     def act_Discard(self, act):
-        paths = [self.world.path(f) for f in sorted(act["files"])]
+        paths = [self.parg(f) for f in sorted(act["files"])]
         if act["how"] == "checkout":
             self.wrapped(["checkout", "-q", "--"] + paths)
         else:
@@ -646,15 +690,25 @@ Run.do = lambda self, act: getattr(self, "act_" + act["a"])(act)
 
 
 def execute(gitai, scratch, cfg, behaviour, run_id):
-    """Run one behaviour; return (events, info).  events[0] is the reset record."""
+    """Run one behaviour; return (events, info).  events[0] is the reset record.
+    cfg["twin"] (optional) = settings of a second execution of the same behaviour (other mode, configuration,
+    start directory, code path); its notes and blame are recorded next to the primary ones."""
     run = Run(gitai, scratch, cfg)
+    twin = None
+    if cfg.get("twin") is not None:
+        tcfg = dict(cfg)
+        tcfg.pop("twin")
+        tcfg.update(cfg["twin"])
+        twin = Run(gitai, scratch, tcfg)
     events = [{"ev": "reset", "run": run_id, "init": cfg.get("InitKind", "base")}]
-    info = {"run": run_id, "cfg": {k: cfg[k] for k in ("render", "filefam", "storage") if k in cfg},
+    info = {"run": run_id, "cfg": {k: cfg[k] for k in ("render", "filefam", "storage", "twin") if k in cfg},
             "steps": [], "notes_detail": {}, "panics": 0}
     try:
         for act in behaviour:
             try:
                 run.do(act)
+                if twin is not None:
+                    twin.do(act)
             except Divergent as e:
                 info["divergent"] = str(e)
                 break
@@ -665,12 +719,25 @@ def execute(gitai, scratch, cfg, behaviour, run_id):
                 ev["files"] = sorted(ev["files"])
             ev["git"] = git
             ev["obs"] = obs
+            if twin is not None:
+                tgit, tobs, tdetail = twin.observe()
+                if tgit["nc"] != git["nc"] or tgit["head"] != git["head"] or tgit["tree"] != git["tree"]:
+                    info["divergent"] = "twin repository differs in git state after %s" % ev["ev"]
+                    info["twin_git_mismatch"] = True
+                    break
+                ev["twin"] = {"notes": tobs["notes"], "blame": tobs["blame"]}
+            else:
+                ev["twin"] = {"notes": obs["notes"], "blame": obs["blame"]}
             events.append(ev)
             info["notes_detail"] = {str(c): d for c, d in detail.items()}
-        info["panics"] = run.panics
+        info["panics"] = run.panics + (twin.panics if twin else 0)
         info["blame_failed"] = run.blame_failed
         info["log"] = [(" ".join(a), rc, err) for a, rc, err in run.log]
+        if twin is not None:
+            info["twin_log"] = [(" ".join(a), rc, err) for a, rc, err in twin.log]
         info["shas"] = dict(run.c2sha)
     finally:
         run.cleanup()
+        if twin is not None:
+            twin.cleanup()
     return events, info
